@@ -52,6 +52,10 @@ func (s *Default) refresh(ctx context.Context, acceptStale bool) (err error) {
 
 	newRuleLists := make(ruleLists, len(resp.Filters))
 	for _, fl := range fls {
+		if fl.url == nil {
+			continue
+		}
+
 		s.addRuleList(ctx, newRuleLists, fl, acceptStale)
 
 		if ctxErr := ctx.Err(); ctxErr != nil {
@@ -60,6 +64,14 @@ func (s *Default) refresh(ctx context.Context, acceptStale bool) (err error) {
 			s.logger.ErrorContext(ctx, "after refreshing lists", slogutil.KeyError, ctxErr)
 
 			return fmt.Errorf("after refreshing rule lists: %w", ctxErr)
+		}
+	}
+
+	for _, fl := range fls {
+		// Keep the previous versions of the lists the index items of which are
+		// invalid, the same way as with the lists that could not be refreshed.
+		if _, ok := newRuleLists[fl.id]; fl.url == nil && !ok {
+			s.setPrevRuleList(newRuleLists, fl.id)
 		}
 	}
 
